@@ -321,6 +321,21 @@ Sync for
 FullSyncMove<SlotType, BUFFER_SIZE> {}
 
 
+/// verification only: makes a quiescent ring behave as if `origin` (a multiple of `BUFFER_SIZE`) more events had flowed
+/// through it -- both sequence counters are advanced by `origin`, the buffered elements keep their slots
+#[cfg(feature = "verif")]
+impl<SlotType:          Debug + Default,
+     const BUFFER_SIZE: usize>
+FullSyncMove<SlotType, BUFFER_SIZE> {
+    pub fn verif_rebase(&self, origin: u32) {
+        assert!(origin as usize % BUFFER_SIZE == 0);
+        unsafe {
+            *self.head.get() = (*self.head.get()).wrapping_add(origin);
+            *self.tail.get() = (*self.tail.get()).wrapping_add(origin);
+        }
+    }
+}
+
 #[cfg(any(test,doc))]
 mod tests {
     //! Unit tests for [full_sync_meta](super) module
